@@ -136,10 +136,17 @@ Definition handle_types : list string := ["otto.Otto"; "otto.runtime"].
 Definition copy_ok (c : copy_site) : bool :=
   negb (str_in (k_type c) handle_types) || allowed (k_type c) (k_func c).
 
+(* a reference held by the template's runtime or handle (an *object such as a cached getter, a
+   stash, a channel, a slice) that clone()/Copy() hands to the copy as it is makes the two runtimes
+   share what it points to: it must go through the cloner's translation, be built afresh, or stay
+   zero.  Host settings that are plain values or funcs (debugger, random, limits) may be carried over. *)
+Definition clone_field_ok (c : clone_field) : bool :=
+  negb (seqb (cf_how c) "verbatim" && cf_ref c) || allowed (cf_type c ++ "." ++ cf_field c) (cf_func c).
+
 Definition audit (vars : list var_entry) (fields : list field_entry) (calls : list call_edge)
-           (copies : list copy_site) : bool :=
+           (copies : list copy_site) (cfields : list clone_field) : bool :=
   forallb var_ok vars && forallb field_ok fields && forallb (callers_bounded calls) allow_list &&
-  forallb copy_ok copies.
+  forallb copy_ok copies && forallb clone_field_ok cfields.
 
 (* ---- the translator must have seen what is known to be there (non-vacuity of the table) ---- *)
 
@@ -154,8 +161,14 @@ Definition field_has_site (fields : list field_entry) (t n : string) (k : site_k
              existsb (fun s => kind_eqb (s_kind s) k && seqb (s_file s) file) (f_sites f)) fields.
 
 Definition table_sane (vars : list var_entry) (fields : list field_entry) (calls : list call_edge)
-           (copies : list copy_site) (type_errors : Z) : bool :=
+           (copies : list copy_site) (cfields : list clone_field) (type_errors : Z) : bool :=
   (type_errors =? 0)%Z &&
+  (* the copying functions are found and read: known treatments are reported *)
+  existsb (fun c => seqb (cf_type c) "otto.runtime" && seqb (cf_field c) "stackLimit" && seqb (cf_how c) "verbatim" && seqb (cf_func c) "otto.(*runtime).clone") cfields &&
+  existsb (fun c => seqb (cf_type c) "otto.runtime" && seqb (cf_field c) "global" && seqb (cf_how c) "cloned") cfields &&
+  existsb (fun c => seqb (cf_type c) "otto.runtime" && seqb (cf_field c) "scope" && seqb (cf_how c) "zero") cfields &&
+  existsb (fun c => seqb (cf_type c) "otto.Otto" && seqb (cf_field c) "runtime" && seqb (cf_how c) "cloned" && seqb (cf_func c) "otto.(*Otto).Copy") cfields &&
+  existsb (fun c => seqb (cf_type c) "otto.Otto" && seqb (cf_field c) "Interrupt" && seqb (cf_func c) "otto.(*Otto).Copy") cfields &&
   (* copy detection works: objectClone's `*out = *in` is reported *)
   existsb (fun c => seqb (k_type c) "otto.object" && seqb (k_func c) "otto.objectClone") copies &&
   forallb (has_var vars)
@@ -190,7 +203,10 @@ Definition site_line (subject : string) (s : site) : string :=
   s_file s ++ ":" ++ zstr (s_line s) ++ " " ++ subject ++ " (" ++ kind_name (s_kind s) ++ " in " ++ s_func s ++ ")".
 
 Definition failing_report (vars : list var_entry) (fields : list field_entry) (calls : list call_edge)
-           (copies : list copy_site) : list string :=
+           (copies : list copy_site) (cfields : list clone_field) : list string :=
+  map (fun c => cf_file c ++ ":" ++ zstr (cf_line c) ++ " " ++ cf_type c ++ "." ++ cf_field c ++ " (" ++ cf_ftype c ++
+                " handed to the copy untranslated by " ++ cf_func c ++ ")")
+      (filter (fun c => negb (clone_field_ok c)) cfields) ++
   map (fun c => k_file c ++ ":" ++ zstr (k_line c) ++ " " ++ k_type c ++ " (shallow copy of a runtime handle, " ++ k_detail c ++ ", in " ++ k_func c ++ ")")
       (filter (fun c => negb (copy_ok c)) copies) ++
   flat_map (fun v => map (site_line (v_name v)) (filter (fun s => negb (var_site_ok v s)) (v_sites v))) vars ++
